@@ -97,6 +97,8 @@ def parked_schedules(ctx, r, big=0):
                     ctx.violation("C01 second claimer not refused while the lock is held", "A parked after %s holding the lock; B: exit %s %s %s" % (at, rb["exit"], rb["stdout"].strip()[:80], rb["stderr"].strip()[:80]),
                                   {"trace": trace + [step]}); return
                 ra = pk.resume(); pk = None
+                if ra.get("tracer_error"):      # strace itself failed: the run says nothing about ergo
+                    ctx.count(1, key=("skipped: tracer error",)); continue
                 if audit_log(ctx, c, pre_bytes, [ra, rb], ["A", "B"], epic, trace + [step]):
                     return
             finally:
